@@ -17,6 +17,7 @@ import z3
 
 from pycv import absunits as AU
 from pycv import harness as H
+from pycv import spec
 from pycv import logic as L
 from pycv import sym
 from pycv.absunits import SymQ
@@ -591,8 +592,55 @@ def job_worm_tables():
                           f"{MO}.mechanical_object_base.worm_wheel_lewis_factor_function"], meta=dict(family="worm-tables"))
 
 
+def job_lewis_table():
+    """The Lewis-factor look-up is a scipy interp1d object built at import time (no Python body to put under contract): it is
+    compared NATIVELY with the documented look-up over the L0 copy of the table -- exhaustively for every integer teeth
+    number 10..1500 (three times the table's end) and on a fixed grid of 6000 non-integer arguments (virtual teeth numbers of
+    helical gears); the CSV rows themselves are compared with the L0 copy.  In the symbolic jobs the look-up is the
+    uninterpreted function g_lewis applied to the argument the constructor passes (its argument is what they check)."""
+    def body(c, O):
+        import csv
+        import gearpy.mechanical_objects.mechanical_object_base as B
+        from fractions import Fraction
+        f = getattr(B, "_real_lewis_factor_function", B.lewis_factor_function)
+        with open(str(B.LEWIS_FACTOR_DATA_FILE)) as fh:
+            rows = [tuple(r) for r in csv.reader(fh)][1:]
+        O.prove("lewis-table:csv-rows=tabulated-standard-values(L0 copy)",
+                [(int(a), Fraction(b)) for a, b in rows] == [(n, Fraction(y)) for n, y in spec.LEWIS_TABLE], props=("C09",))
+        with open(str(B.WORM_GEAR_AND_WHEEL_DATA_FILE)) as fh:
+            wrows = [tuple(Fraction(x) for x in r) for r in list(csv.reader(fh))[1:]]
+        O.prove("worm-table:csv-rows=tabulated-values(L0 copy)", wrows == [tuple(Fraction(x) for x in r) for r in spec.WORM_TABLE], props=("C09", "C19"))
+        O.prove("lewis-table:minimum-teeth-number=10", int(B.MINIMUM_TEETH_NUMBER) == spec.LEWIS_TABLE[0][0], props=("C09", "C19"))
+        import gearpy.units as GU
+        fmax = getattr(B, "_real_max_helix", B.worm_gear_and_wheel_maximum_helix_angle_function)
+        flew = getattr(B, "_real_wheel_lewis", B.worm_wheel_lewis_factor_function)
+        okw = []
+        for pa_, mx_, lw_ in spec.WORM_TABLE:
+            a = GU.Angle(float(pa_), "deg")
+            okw.append(abs(float(fmax(pressure_angle=a).to("deg").value) - float(mx_)) < 1e-12 and abs(float(flew(pressure_angle=a)) - float(lw_)) < 1e-12)
+        O.prove("worm-lookups:maximum-helix-angle-and-wheel-Lewis-factor=tabulated-values-for-the-four-pressure-angles", all(okw), props=("C09", "C19"), note=str(okw))
+        bad = []
+        for n in range(10, 1501):
+            got = float(f(n))
+            if abs(got - float(spec.lewis_reference(n))) > 1e-12:
+                bad.append((n, got, float(spec.lewis_reference(n))))
+        O.prove("lewis-lookup:every-integer-teeth-number-10..1500=interpolation-clamped-at-the-table's-end", not bad, props=("C09",), note=str(bad[:3]))
+        bad = []
+        for k in range(6000):
+            x = Fraction(10) + Fraction(k * 1490, 5999) + Fraction(1, 7)
+            got = float(f(float(x)))
+            if abs(got - float(spec.lewis_reference(Fraction(float(x))))) > 1e-12:
+                bad.append((float(x), got))
+        O.prove("lewis-lookup:non-integer-arguments(grid of 6000 in [10,1500])=interpolation-clamped-at-the-table's-end", not bad, props=("C09",),
+                note=str(bad[:3]))
+        O.cover("done")
+    return Job("gears.lewis-table", body, ("C09", "C19"), functions=[f"{MO}.mechanical_object_base.lewis_factor_function (scipy interp1d object)",
+                                                                       f"{MO}.gear_data/lewis_factor_table.csv", f"{MO}.gear_data/worm_gear_and_wheel_data.csv"],
+               expect_covers=("done",), meta=dict(family="worm-tables"))
+
+
 def all_jobs(exact_tables=None):
-    jobs = []
+    jobs = [job_lewis_table()]
     for cls in ("SpurGear", "HelicalGear", "WormWheel", "WormGear"):
         for d in subsets(cls):
             if cls.startswith("Worm"):
